@@ -379,3 +379,5 @@ CLAIMS["C19"]["text"] += (" A public key is also sent in 15 non-canonical but va
 CLAIMS["C19"]["note"] += (" The re-used state machine is reached through the add-only hook p2p/http/auth/export_verif.go (type alias, build tag verif); the direct engines re-implement ServeHTTP's glue and recognise the three re-challenge errors by their text; re-use without Reset() is not exercised; x509.MarshalPKIXPublicKey and the standard-library keys behind libp2p keys are trusted as the key material.")
 CLAIMS["C08"]["text"] += (" Peer-ID checks run under both values of the process-wide option peer.AdvancedEnableInlining: the locally derived ID equals the reference definition for the setting (identity multihash iff inlining is on and the key is <= 42 bytes, else sha2-256), and both IDs of a key (as derived by a peer with inlining on or off, received through any serialized form) round-trip in every form and yield the key exactly when they embed it, independent of the local setting.")
 CLAIMS["C08"]["note"] += (" MatchesPublicKey is judged against the ID for the current setting only (the library re-derives the ID; the statement does not require an ID derived under the other setting to match). Envelope, peerstore and key tests run under the default setting only.")
+
+CLAIMS["C11"]["text"] += (" After a granted refresh from the same address the generator often moves the clock just past the reservation's ORIGINAL expiry (while the refreshed one is still live) and lets other peers ask from that address, so that the per-IP/ASN caps are probed against a refreshed reservation (labels clock-passes-original-expiry-of-a-refreshed-reservation, reserve-from-the-address-...).")
